@@ -135,6 +135,12 @@ def run_shard(ctx):
                 res.violation("status-not-a-partition", "exists and missing overlap", case=case, detail=cfg)
             # compare_status
             res.count("compare_status_calls")
+            if expanded:
+                # compare_status expands on the source side from the source itself
+                for o in q:
+                    if o in dirs and o not in src_present:
+                        put(sroot, o, dirs[o][1])
+                        src_present.add(o)
             check_deleted = rng.random() < 0.6
             cs = compare_status(src, odb, ids, check_deleted=check_deleted, cache_odb=cache, shallow=not expanded, jobs=jobs)
             sobjs, _t2, _s2 = list_store(sroot)
